@@ -13,9 +13,9 @@ from harness import lex_gen as lg
 
 LEVEL = "proof"
 META = {
-    "technique": "Coq proof at two levels. (1) Token level (on top of the C10 tokenizer model): the preservation criterion fmt_equiv is an equivalence with a verified boolean checker, and a Gallina mirror of format_emb.sanity_check_format_result decides exactly that criterion. (2) Handler level: an executable Gallina model of format_emb.py (Lex/FmtModel.v: strings with provenance, _Row/_Block values, hand-written shared combinators _intersperse/_should_add_blank_lines/_columnize/_indent_*/_add_blank_rows_on_dedent/_render_rows_to_text/comment stripping, and a 28-construct handler DSL); the table production -> handler term is REGENERATED from format_emb.py on every run by a fail-closed Python ast translator (harness/fmt_x.py); theorems for ALL parse trees by induction over the tree with one lemma per combinator, instantiated on the regenerated table by vm_compute over the production list. Correspondence: model output = format_emboss_parse_tree character for character on every (text, indent 1..8) pair of the run (extracted OCaml, sampled against vm_compute). Translation validation of every produced output as before: output tokenized by the MODEL and compared with the verified criterion; idempotence, no-exception, re-parse and agreement of the built-in self check observed directly",
-    "level_text": "PARTIAL (proof of the criterion and of the self-check mirror + translation validation of each produced output). Machine-checked (Coq 8.16, no axioms): fmt_equiv (same symbols and same texts modulo surrounding white space after collapsing newline runs, leading ones entirely) is reflexive, symmetric and transitive; fmt_equivb decides it; equivalent token lists feed the parser the same symbol sequence; the model of sanity_check_format_result (as of fix 7fc177c) returns no error exactly when fmt_equiv holds (sanity_ok_iff), and its two reports mean what they say (sanity_bug_position: first non-equivalent position; sanity_count_differs: one stream equivalent to a strict prefix of the other); a line re-tokenises to a given token list iff the local longest-first conditions hold (retokenize_line_partial). Handler level, for ALL parse trees (no size bound): format_preserves_tokens / format_text_preserves_tokens / format_preserves_leaves -- whenever the formatter does not raise, its result (rows, and the rendered text as a concatenation of pieces) carries exactly the (symbol, stripped text) sequence of the tree's leaves other than Indent/Dedent/newline and white-space-only tokens, given the static check table_toks_ok, which holds for the regenerated table (inst_table_toks_ok); eval_preserves_tokens per DSL construct and combinator. PARTIAL: never-fails is proved only for the string fragment (format_total_strings_partial: 181 of 224 productions -- expressions, types, names, attributes); idempotence only for the passes (indent_blanks_idempotent_partial, add_blank_rows_idempotent_partial, rstrip_idempotent_partial); that the tokenizer splits the rendered text at the piece boundaries and produces the same Indent/Dedent tokens is still validated per output (retokenize_line_partial + translation validation), not proved for all outputs.",
-    "level_note": "Trusted: Coq kernel + vm_compute; extraction (ExtrOcamlBasic only) + 40-line OCaml driver, cross-checked on a sample inside Coq; harness/lex_tables.py; the Python parser (parser.parse_module) as the oracle for 'parseable'. harness/fmt_x.py (translator format_emb.py -> handler DSL; its output is tied by the character-for-character correspondence). Not modelled: Config.show_line_types=True; not proved: totality of the row/block handlers, idempotence of the whole formatter, re-tokenization of the rendered text for all outputs; IR equality after formatting follows from token equivalence only through the parser, which is the subject of C08/C09, not of this check.",
+    "technique": "Coq proof at two levels. (1) Token level (on top of the C10 tokenizer model): the preservation criterion fmt_equiv is an equivalence with a verified boolean checker, and a Gallina mirror of format_emb.sanity_check_format_result decides exactly that criterion. (2) Handler level: an executable Gallina model of format_emb.py (Lex/FmtModel.v: strings with provenance, _Row/_Block values, hand-written shared combinators _intersperse/_should_add_blank_lines/_columnize/_indent_*/_add_blank_rows_on_dedent/_render_rows_to_text/comment stripping, and a 28-construct handler DSL); the table production -> handler term is REGENERATED from format_emb.py on every run by a fail-closed Python ast translator (harness/fmt_x.py); theorems for ALL parse trees by induction over the tree with one lemma per combinator, instantiated on the regenerated table by vm_compute over the production list. Correspondence: model output = format_emboss_parse_tree character for character on every (text, indent 1..8) pair of the run (extracted OCaml, sampled against vm_compute). Never-fails: a refinement typing of handler results (Lex/FmtTyping.v: str / k-list of str / rows with at most one column / blocks with a set of header kinds, possibly non-empty / lists of row lists / inline-bits body), type inference for the DSL, symbol types inferred by iteration inside Coq, table_typed_ok by vm_compute on the regenerated table, soundness by induction over expressions and trees. Second configuration Config(show_line_types=True) modelled (Lex/FmtShow.v) and compared character for character. Re-tokenization piece by piece (Lex/FmtRetok.v) over the C10 tokenizer model, hypothesis pieces_fit evaluated by the extracted model on sampled outputs and the pieces compared with tokenizer.tokenize. Translation validation of every produced output as before: output tokenized by the MODEL and compared with the verified criterion; idempotence, no-exception, re-parse and agreement of the built-in self check observed directly",
+    "level_text": "PARTIAL (proof of the criterion and of the self-check mirror + translation validation of each produced output). Machine-checked (Coq 8.16, no axioms): fmt_equiv (same symbols and same texts modulo surrounding white space after collapsing newline runs, leading ones entirely) is reflexive, symmetric and transitive; fmt_equivb decides it; equivalent token lists feed the parser the same symbol sequence; the model of sanity_check_format_result (as of fix 7fc177c) returns no error exactly when fmt_equiv holds (sanity_ok_iff), and its two reports mean what they say (sanity_bug_position: first non-equivalent position; sanity_count_differs: one stream equivalent to a strict prefix of the other); a line re-tokenises to a given token list iff the local longest-first conditions hold (retokenize_line_partial). Handler level, for ALL parse trees (no size bound): format_preserves_tokens / format_text_preserves_tokens / format_preserves_leaves -- whenever the formatter does not raise, its result (rows, and the rendered text as a concatenation of pieces) carries exactly the (symbol, stripped text) sequence of the tree's leaves other than Indent/Dedent/newline and white-space-only tokens, given the static check table_toks_ok, which holds for the regenerated table (inst_table_toks_ok); eval_preserves_tokens per DSL construct and combinator. NEVER FAILS: format_total / format_text_total -- for every tree built from the grammar's productions with terminal leaves (tree_gwf) that satisfies asserts_ok (the child under `assert not comment` of doc-line is the empty alternative: a tokenizer fact, Documentation tokens end their line; checked on every parse tree and token list of the run) the formatter returns a value, a text for a module, at every indent width; by the static check table_typed_ok (inst_table_typed_ok on the regenerated table); each Python assert is a typing fact except that one. PARTIAL: idempotence -- columnize_idempotent (cells already at the computed widths are left alone), columnize_cells_idempotent, columnize_widths_depend_on_text_only, format_rows_fixed_point_partial (the rendered rows are a fixed point of both whole-file passes and of their composition), the single passes and rstrip; fmt(fmt t) = fmt t itself needs the parser and stays validated per output. RE-TOKENIZATION, PARTIAL: format_line_retokenizes_partial / format_lines_retokenize_partial -- under the decidable per-line condition pieces_fit the line loop of the tokenizer model splits every rendered line into exactly the tokens its pieces stand for, and these are the tree's tokens; pieces_fit is evaluated per produced line (sample), not derived for all outputs; Indent/Dedent/newline tokens not covered. show_line_types_preserves_tokens for the second configuration.",
+    "level_note": "Trusted: Coq kernel + vm_compute; extraction (ExtrOcamlBasic only) + 40-line OCaml driver, cross-checked on a sample inside Coq; harness/lex_tables.py; the Python parser (parser.parse_module) as the oracle for 'parseable'. harness/fmt_x.py (translator format_emb.py -> handler DSL; its output is tied by the character-for-character correspondence). Not proved: idempotence of the whole formatter (needs the parser), pieces_fit for all outputs, Indent/Dedent re-tokenization; asserts_ok is a hypothesis of format_total justified by the tokenizer's Documentation patterns and checked on every tree of each run, not derived from the tokenizer model; IR equality after formatting follows from token equivalence only through the parser, which is the subject of C08/C09, not of this check.",
 }
 
 GEN_TABLE = "LexTable_C11"
@@ -111,7 +111,9 @@ GEN_FMT = "FmtTable_C11"
 
 FMT_DRIVER_ML = r"""(* C11 handler-model driver: one case per input line = indent width, then the parse tree in prefix order
    (leaf: 0 <len> sym.. <len> text..; node: 1 <production index> <number of children> children..), all as integers.
-   Prints `ok <code points>` (the model of format_emboss_parse_tree) or `fail`. *)
+   Prints two flags (tree_gwfb, asserts_ok: the tree hypotheses of format_total) and then `ok <code points>` (the model of
+   format_emboss_parse_tree) or `fail`.  An indent width of 1000 + k selects Config(indent_width=k, show_line_types=True); 2000 + k prints
+   `retok <text_fits> <tokens the pieces stand for>` instead (Lex/FmtRetok.v); adding 4000 requests the two flags. *)
 open Fmthandlers
 let rec pos_of_int i = if i = 1 then XH else if i land 1 = 1 then XI (pos_of_int (i lsr 1)) else XO (pos_of_int (i lsr 1))
 let n_of_int i = if i = 0 then N0 else Npos (pos_of_int i)
@@ -141,9 +143,27 @@ let () =
       let line = input_line stdin in
       toks := Array.of_list (List.map int_of_string (List.filter (fun s -> s <> "") (String.split_on_char ' ' line)));
       pos := 0;
-      let iw = next () in
+      let iw0 = next () in
+      let checks = iw0 >= 4000 in
+      let mode = (iw0 mod 4000) / 1000 in
+      let retok = mode = 2 in
+      let show = mode = 1 in
+      let iw = iw0 mod 1000 in
       let t = read_tree () in
-      (match run_format (nat_of_int iw) t with
+      if checks then begin
+        let (g, a) = run_checks t in
+        print_string (if g then "1" else "0"); print_string (if a then "1 " else "0 ")
+      end;
+      if retok then
+        (match run_retok (nat_of_int iw) t with
+         | Some (fit, toks) ->
+             print_string (if fit then "retok 1" else "retok 0");
+             let pr s = print_char ' '; print_string (string_of_int (List.length s));
+                        List.iter (fun c -> print_char ' '; print_string (string_of_int (int_of_n c))) s in
+             List.iter (fun (sy, tx) -> pr sy; pr tx) toks; print_newline ()
+         | None -> print_endline "fail")
+      else
+      (match run_format show (nat_of_int iw) t with
        | Some s -> print_string "ok"; List.iter (fun c -> print_char ' '; print_string (string_of_int (int_of_n c))) s; print_newline ()
        | None -> print_endline "fail")
     done
@@ -156,10 +176,16 @@ def build_fmt_model(d, flags=None):
     shutil.rmtree(d, ignore_errors=True)
     os.makedirs(d)
     with open(os.path.join(d, "FmtHExtr.v"), "w") as f:
-        f.write("Require Import EmbossV.Lex.FmtModel EmbossVGen.%s.\n" % GEN_FMT)
+        f.write("Require Import EmbossV.Lex.Tokenizer EmbossV.Lex.FmtModel EmbossV.Lex.FmtTyping EmbossV.Lex.FmtShow EmbossV.Lex.FmtRetok.\n")
+        f.write("Require Import EmbossVGen.%s EmbossVGen.%s.\n" % (GEN_TABLE, GEN_FMT))
         f.write("Require Extraction. Require Import ExtrOcamlBasic.\n")
-        f.write("Definition run_format (iw : nat) (t : tree) : option (list BinNums.N) := format_text fmt_ws iw fmt_table t.\n")
-        f.write('Extraction "fmthandlers.ml" run_format.\n')
+        f.write("Definition run_format (show : bool) (iw : nat) (t : tree) : option (list BinNums.N) :=\n"
+                "  if show then format_text_show fmt_ws iw fmt_table t else format_text fmt_ws iw fmt_table t.\n")
+        f.write("Definition run_checks (t : tree) : bool * bool := (tree_gwfb fmt_table t, asserts_ok fmt_table t).\n")
+        f.write("Definition run_retok (iw : nat) (t : tree) : option (bool * list (list BinNums.N * list BinNums.N)) :=\n"
+                "  match format fmt_ws iw fmt_table t with\n"
+                "  | Some (VStr g) => Some (text_fits code_table g, text_piece_tokens g)\n  | _ => None\n  end.\n")
+        f.write('Extraction "fmthandlers.ml" run_format run_checks run_retok.\n')
     rc, out = fw.sh(["coqc"] + (flags or fw.COQ_FLAGS) + [os.path.join(d, "FmtHExtr.v")], timeout=600, cwd=d)
     if rc != 0:
         return None, out
@@ -198,8 +224,9 @@ def coq_tree(tab, tree):
     return "(Node %d [%s])" % (tab["index"][tree.production], ";".join(coq_tree(tab, c) for c in tree.children))
 
 
-def run_fmt_model(exe, tab, pairs, nproc=8):
-    """pairs = [(tree, indent width)] -> list of model outputs (str), None for a model failure, or 'DRIVER...'"""
+def run_fmt_model(exe, tab, pairs, nproc=8, flags=None):
+    """pairs = [(tree, indent width)] -> list of model outputs (str), None for a model failure, or 'DRIVER...';
+    flags (a list, optional) receives per pair the two characters tree_gwfb / asserts_ok ('11' = both hold)"""
     chunks = [pairs[i::nproc] for i in range(nproc)]
     outs = [None] * nproc
 
@@ -219,6 +246,7 @@ def run_fmt_model(exe, tab, pairs, nproc=8):
     for x in th:
         x.join()
     res = [None] * len(pairs)
+    fls = ["??"] * len(pairs)
     for k in range(nproc):
         rc, o, e = outs[k]
         lines = o.split("\n")
@@ -228,6 +256,9 @@ def run_fmt_model(exe, tab, pairs, nproc=8):
         if rc != 0 or len(lines) != n:
             lines = (lines + ["DRIVER-FAILED rc=%s %s" % (rc, e[-200:].replace("\n", " "))] * n)[:n]
         for j, l in enumerate(lines):
+            fl = "??"
+            if len(l) > 3 and l[2] == " " and l[0] in "01" and l[1] in "01":
+                fl, l = l[:2], l[3:]
             if l == "fail":
                 v = None
             elif l.startswith("ok"):
@@ -235,6 +266,9 @@ def run_fmt_model(exe, tab, pairs, nproc=8):
             else:
                 v = l
             res[k + j * nproc] = v
+            fls[k + j * nproc] = fl
+    if flags is not None:
+        flags.extend(fls)
     return res
 
 
@@ -660,9 +694,17 @@ def handler_model_part(ctx, impl, cases):
     inst = os.path.join(fw.GEN, INST_H + ".v")
     ex_tree = real_expression_subtree(impl, tab)
     with open(inst, "w") as f:
-        f.write(INSTANCE_V % dict(tab=GEN_FMT))
+        asserting = [lhs for lhs, rhs, fname, term in tab["productions"] if "'EAssert'" in repr(term)]
+        ctx.extra["handlers_with_assert"] = asserting
+        f.write(INSTANCE_V % dict(tab=GEN_FMT, module=lt.coq_str("module"),
+                                  asserting="[" + ";".join(lt.coq_str(a) for a in asserting) + "]"))
         if ex_tree is not None:
             f.write(INSTANCE_EX_V % dict(tree=coq_tree(tab, ex_tree)))
+        mod_text = "struct Foo:\n  -- doc\n  0 [+1]  UInt  x  # c\n  if x == 0:\n    1 [+x-1]  UInt:8[]  ys\n"
+        mod_tree = impl.parse(mod_text)
+        if mod_tree is not None:
+            f.write(INSTANCE_MOD_V % dict(tree=coq_tree(tab, mod_tree), lex=GEN_TABLE,
+                                          out=lt.coq_str(impl.fmt(mod_tree, 3))))
     rc, out = fw.coqc(inst, timeout=900)
     names = fw.theorem_names(inst)
     if rc != 0:
@@ -690,10 +732,12 @@ def handler_model_part(ctx, impl, cases):
     trees = {}
     pairs = []
     for c in fcs:
-        if c["text"] not in trees:
+        first = c["text"] not in trees
+        if first:
             trees[c["text"]] = impl.parse(c["text"])
-        pairs.append((trees[c["text"]], c["k"]))
-    outs = run_fmt_model(exe, tab, pairs)
+        pairs.append((trees[c["text"]], c["k"] + (4000 if first else 0)))      # flags once per distinct tree
+    flags = []
+    outs = run_fmt_model(exe, tab, pairs, flags=flags)
     bad = []
     for c, o in zip(fcs, outs):
         ok = (o == c["out"])
@@ -711,6 +755,101 @@ def handler_model_part(ctx, impl, cases):
                       dict(kind="text", text=c["text"], indent=c["k"], model=o, python=c["out"],
                            correspondence="Lex.FmtModel.format_text on the regenerated table vs format_emb.format_emboss_parse_tree",
                            theorems=["format_preserves_tokens", "format_total"]), found_input=False)
+    # ---- the tree hypotheses of format_total on the parse trees the real front end produced ----
+    hyp_bad = []
+    seen_t = set()
+    for c, fl in zip(fcs, flags):
+        if c["text"] in seen_t:
+            continue
+        seen_t.add(c["text"])
+        ctx.count("format_total-hypotheses:" + {"11": "tree_gwfb and asserts_ok hold", "01": "tree_gwfb fails", "10": "asserts_ok fails",
+                                                "00": "both fail"}.get(fl, "not evaluated"))
+        if fl != "11":
+            hyp_bad.append((c, fl))
+    ctx.obligation("hypotheses of format_total (tree_gwfb: grammar shape + terminal leaves; asserts_ok: `assert not comment` positions hold "
+                   "the empty alternative) evaluated by the extracted model: hold on all %d distinct parse trees produced by "
+                   "tokenizer.tokenize + parser.parse_module" % len(seen_t), not hyp_bad)
+    if hyp_bad:
+        c, fl = min(hyp_bad, key=lambda b: len(b[0]["text"]))
+        ctx.violation("formatter-total-hypothesis", "a parse tree of the real parser violates the tree hypothesis of format_total (flags gwf/asserts = %s) on %r"
+                      % (fl, c["text"][:160]), dict(kind="text", text=c["text"], indent=c["k"], flags=fl, theorems=["format_total"]), found_input=False)
+    # the tokenizer fact behind asserts_ok, on the real tokenizer: no Comment token follows a Documentation token on its line
+    n_doc, doc_bad = 0, None
+    for text in trees:
+        toks, errs = impl.tokenizer.tokenize(text, "f")
+        for a, b in zip(toks, toks[1:]):
+            if a.symbol == "Documentation":
+                n_doc += 1
+                if b.symbol != '"\\n"':
+                    doc_bad = doc_bad or (text, b.symbol)
+    ctx.extra["documentation_tokens_followed_by_newline"] = n_doc
+    ctx.obligation("tokenizer fact behind asserts_ok: each of the %d Documentation tokens of this run is followed by the newline token "
+                   "(never by a Comment)" % n_doc, doc_bad is None)
+    if doc_bad is not None:
+        ctx.violation("formatter-total-hypothesis", "tokenizer.tokenize produced %s right after a Documentation token in %r" % (doc_bad[1], doc_bad[0][:160]),
+                      dict(kind="text", text=doc_bad[0], theorems=["format_total"]), found_input=False)
+    # ---- the second configuration: Config(indent_width=k, show_line_types=True) ----
+    spairs, sexp = [], []
+    show_texts = list(trees.items())
+    if not ctx.thorough() and len(show_texts) > 450:
+        show_texts = ctx.rng.sample(show_texts, 450)
+    for text, tree in show_texts:
+        for k in ctx.rng.sample(range(1, 9), 3 if ctx.thorough() else 1):
+            try:
+                sexp.append(impl.format_emb.format_emboss_parse_tree(tree, impl.format_emb.Config(indent_width=k, show_line_types=True)))
+            except Exception as ex:  # noqa
+                sexp.append("RAISED %s" % type(ex).__name__)
+            spairs.append((tree, 1000 + k, text))
+    souts = run_fmt_model(exe, tab, [(t_, k_) for t_, k_, _ in spairs])
+    sbad = [(sp, o, e) for sp, o, e in zip(spairs, souts, sexp) if o != e]
+    for sp, o, e in zip(spairs, souts, sexp):
+        ctx.count("handler-model-show_line_types:" + ("equal" if o == e else "differs"))
+        ctx.case(("handler-model-show", sp[2], sp[1]), nontrivial=True, sample={"indent": sp[1] - 1000, "text": sp[2][:80], "model=python": o == e})
+    ctx.obligation("correspondence: Lex.FmtShow.format_text_show = format_emboss_parse_tree(tree, Config(k, show_line_types=True)) "
+                   "character for character on %d (text, indent) pairs" % len(spairs), not sbad)
+    if sbad:
+        sp, o, e = min(sbad, key=lambda b: len(b[0][2]))
+        ctx.violation("formatter-handler-model", "the show_line_types model and format_emboss_parse_tree disagree for indent %d on %r: model %r, python %r"
+                      % (sp[1] - 1000, sp[2][:120], (o or "<model fails>")[:120], e[:120]),
+                      dict(kind="text", text=sp[2], indent=sp[1] - 1000, show_line_types=True, model=o, python=e,
+                           correspondence="Lex.FmtShow.format_text_show vs format_emb.format_emboss_parse_tree with Config(show_line_types=True)"), found_input=False)
+    # ---- re-tokenization, piece by piece (format_line_retokenizes_partial / format_lines_retokenize_partial) ----
+    cand = [c for c in fcs if len(c["text"]) < 4000]
+    rs = ctx.rng.sample(cand, min(len(cand), 1200 if ctx.thorough() else 160))
+    routs = run_fmt_model(exe, tab, [(trees[c["text"]], 2000 + c["k"]) for c in rs])
+    rbad = []
+    for c, o in zip(rs, routs):
+        verdict = "driver-failed"
+        if isinstance(o, str) and o.startswith("retok "):
+            nums = [int(x) for x in o.split()[1:]]
+            fit, pos, mtoks = nums[0], 1, []
+            while pos < len(nums):
+                n1 = nums[pos]
+                sy = "".join(chr(x) for x in nums[pos + 1:pos + 1 + n1])
+                pos += 1 + n1
+                n2 = nums[pos]
+                tx = "".join(chr(x) for x in nums[pos + 1:pos + 1 + n2])
+                pos += 1 + n2
+                mtoks.append((sy, tx))
+            rtoks, errs = impl.tokenizer.tokenize(c["out"], "f")
+            real = [(t_.symbol, t_.text) for t_ in rtoks if t_.symbol not in ("Indent", "Dedent", '"\\n"')]
+            verdict = "fits and pieces = real tokens" if (fit == 1 and not errs and mtoks == real) else \
+                      "pieces_fit fails" if fit != 1 else "pieces differ from tokenizer.tokenize"
+        ctx.count("retokenize-pieces:" + verdict)
+        ctx.case(("retok", c["text"], c["k"]), nontrivial=True, sample={"indent": c["k"], "text": c["text"][:80], "verdict": verdict})
+        if verdict != "fits and pieces = real tokens":
+            rbad.append((c, verdict))
+    ctx.obligation("re-tokenization piece by piece: on %d sampled (text, indent) pairs every line of the model's result passes pieces_fit "
+                   "(hypothesis of format_lines_retokenize_partial, extracted model on the regenerated pattern table) and the tokens the pieces "
+                   "stand for are exactly the lexical tokens tokenizer.tokenize finds in the real formatter's output" % len(rs), not rbad)
+    if rbad:
+        c, verdict = min(rbad, key=lambda b: len(b[0]["text"]))
+        why = property_failure(impl, c["text"], c["k"])
+        if why is None:
+            ctx.violation("formatter-retokenize-model", "re-tokenization of the model's pieces: %s for indent %d on %r (the property holds on the implementation)"
+                          % (verdict, c["k"], c["text"][:160]),
+                          dict(kind="text", text=c["text"], indent=c["k"], verdict=verdict, theorems=["format_lines_retokenize_partial"]), found_input=False)
+        # otherwise the translation validation below reports the failing input with its mechanism
     # a sample inside Coq (extraction is a speed-up, not a premise)
     small = [(c, trees[c["text"]]) for c in fcs if len(c["text"]) < 700]
     sample = ctx.rng.sample(small, min(len(small), 60 if ctx.thorough() else 24))
@@ -767,10 +906,26 @@ Proof. apply PeanoNat.Nat.leb_le. vm_compute. reflexivity. Qed.
 """
 
 
+INSTANCE_MOD_V = """
+(* a real module (parsed by the real front end): it satisfies the tree hypotheses of format_total, and every line of
+   its formatted text (indent 3) satisfies the hypothesis of format_lines_retokenize_partial on the real pattern table *)
+Require Import EmbossV.Lex.Tokenizer EmbossV.Lex.FmtRetok EmbossVGen.%(lex)s.
+Definition real_module : tree := %(tree)s%%N.
+Theorem inst_real_module_hypotheses : tree_gwfb fmt_table real_module = true /\\ asserts_ok fmt_table real_module = true.
+Proof. split; vm_compute; reflexivity. Qed.
+Theorem inst_real_module_retokenizes :
+  match format fmt_ws 3 fmt_table real_module with
+  | Some (VStr g) => andb (text_fits code_table g) (seqb (flat g) %(out)s%%N)
+  | _ => false
+  end = true.
+Proof. vm_compute. reflexivity. Qed.
+"""
+
+
 INSTANCE_V = """(* GENERATED by harness/props/c11.py: the handler-level theorems on the table regenerated from format_emb.py *)
 From Coq Require Import NArith List.
 Import ListNotations.
-Require Import EmbossV.Lex.Regex EmbossV.Lex.FmtModel EmbossV.Lex.Properties_C11.
+Require Import EmbossV.Lex.Regex EmbossV.Lex.FmtModel EmbossV.Lex.FmtTyping EmbossV.Lex.Properties_C11.
 Require Import EmbossVGen.%(tab)s.
 
 (* every handler uses the tokens of each of its arguments exactly once and in order, except Indent / Dedent / newline *)
@@ -789,6 +944,30 @@ Theorem inst_format_preserves_leaves : forall iw t v,
   tree_wf fmt_table t -> (forall s, root_sym fmt_table t = Some s -> droppable s = false) ->
   format fmt_ws iw fmt_table t = Some v -> vtoks fmt_ws v = leaf_toks fmt_ws t.
 Proof. exact (fun iw => format_preserves_leaves fmt_ws iw fmt_table inst_table_toks_ok inst_droppable_terminal). Qed.
+
+(* NEVER FAILS.  The type of every grammar symbol, inferred from the regenerated handlers ... *)
+Definition fmt_sig : sigt := Eval vm_compute in infer fmt_table.
+Theorem inst_infer : infer fmt_table = fmt_sig.
+Proof. vm_compute. reflexivity. Qed.
+(* ... passes the check: every handler maps arguments of the types of its right-hand side to the type of its left-hand side *)
+Theorem inst_table_typed_ok : table_typed_ok fmt_table = true.
+Proof. unfold table_typed_ok. rewrite inst_infer. vm_compute. reflexivity. Qed.
+Theorem inst_module_is_str : sym_ty fmt_table (infer fmt_table) %(module)s%%N = Some TStr.
+Proof. rewrite inst_infer. vm_compute. reflexivity. Qed.
+(* the handlers that contain an assert statement (the tree hypothesis asserts_ok speaks about these only) *)
+Theorem inst_asserting_handlers : map hlhs (asserting_handlers fmt_table) = %(asserting)s%%N.
+Proof. vm_compute. reflexivity. Qed.
+
+Theorem inst_format_total : forall iw t, tree_gwf fmt_table t -> asserts_ok fmt_table t = true ->
+  exists v, format fmt_ws iw fmt_table t = Some v.
+Proof. exact (fun iw => format_total fmt_ws iw fmt_table inst_table_typed_ok). Qed.
+
+(* format_emboss_parse_tree returns a text for EVERY parse tree of a module, for every indent width *)
+Theorem inst_format_text_total : forall iw t, tree_gwf fmt_table t -> asserts_ok fmt_table t = true ->
+  root_sym fmt_table t = Some %(module)s%%N -> exists txt, format_text fmt_ws iw fmt_table t = Some txt.
+Proof.
+  exact (fun iw t Hw Ha Hr => format_text_total fmt_ws iw fmt_table inst_table_typed_ok t _ Hw Ha Hr inst_module_is_str).
+Qed.
 """
 
 
@@ -820,13 +999,15 @@ def run(ctx):
                 "output again is the identity; Python's self check and its model agree.  Plus perturbed (formatted, original) pairs for "
                 "the self-check model.  Handler-level model: every (text, indent) pair above is also formatted by the extracted Gallina model on the "
                 "regenerated handler table and compared with format_emboss_parse_tree character for character.  "
+                "Also per distinct text: tree_gwfb/asserts_ok (hypotheses of format_total) by the extracted model, the tokenizer fact behind asserts_ok on the real token list; "
+                "Config(show_line_types=True) for one random width (sample of texts) against Lex.FmtShow; pieces_fit and the piece tokens against tokenizer.tokenize on a sample.  "
                 "Non-trivial = the formatted text differs from the input; distinct by (text, indent)")
     ctx.trusted = ["Coq 8.16.1 kernel, vm_compute", "extraction (ExtrOcamlBasic) + OCaml driver (sampled against vm_compute)",
                    "harness/lex_tables.py", "harness/fmt_x.py", "harness/props/c11.py", "parser.parse_module as the oracle for 'parseable'"]
-    ctx.assumptions = ["the handler-level model (Lex/FmtModel.v + regenerated table) stands for format_emb.py: tied by the character-for-character correspondence of this run; format_preserves_tokens is conditional on the formatter not raising (totality proved for the string fragment only) and speaks about the pieces of the rendered text, whose re-tokenization is validated per produced output (partial)",
+    ctx.assumptions = ["the handler-level model (Lex/FmtModel.v + regenerated table) stands for format_emb.py: tied by the character-for-character correspondence of this run; format_total assumes tree_gwf (grammar shape, terminal leaves) and asserts_ok (no Comment after Documentation on a line: tokenizer fact), both evaluated on every parse tree of the run; format_preserves_tokens speaks about the pieces of the rendered text, whose re-tokenization is proved per line under pieces_fit (evaluated on a sample) and otherwise validated per produced output (partial)",
                        "the C10 tokenizer model stands for tokenizer.tokenize (tied by the C10 correspondence; re-checked here on every text used)"]
     audit_closure(ctx)
-    thm_ok = ctx.check_theorems("EmbossV.Lex.Properties_C11", "Lex/Properties_C11.v", expect_min=21)
+    thm_ok = ctx.check_theorems("EmbossV.Lex.Properties_C11", "Lex/Properties_C11.v", expect_min=34)
 
     os.makedirs(fw.GEN, exist_ok=True)
     try:
